@@ -131,7 +131,7 @@ def classify_proposal(held, prop, move_events, tol=1e-9):
             if proper:
                 kinds.add(1)
     for (_, before, out, _) in move_events:
-        if np.array_equal(before, held) and np.array_equal(out, prop):
+        if np.array_equal(before, held) and np.array_equal(out, prop, equal_nan=True):
             kinds.add(2)
     return kinds
 
@@ -180,7 +180,7 @@ def check_trace(events, initial, n_steps, sim_type, returned):
             if not (e0 == e_held):
                 problems.append(('judged-against-wrong-measure',
                                  f'step {stats["steps"]}: acceptance test got E_current={e0!r}, the held configuration has {e_held!r} (lowest so far {e_min!r})'))
-            if not (e1 == e_prop):
+            if not (e1 == e_prop) and not (np.isnan(e1) and np.isnan(e_prop)):
                 problems.append(('proposal-measure-mismatch', f'step {stats["steps"]}: acceptance test got E_new={e1!r}, the proposal evaluated to {e_prop!r}'))
             # proposal type
             kinds = classify_proposal(held, prop, pending_moves)
@@ -193,7 +193,13 @@ def check_trace(events, initial, n_steps, sim_type, returned):
                 for k in kinds & set(sim_type):
                     stats['types'][k] += 1
             # Metropolis rule
-            if e1 <= e0:
+            if not np.isfinite(e1):
+                # a proposal without a finite measure (a single-atom move with no defined direction) is not "equal or
+                # lower": it can only be taken through the probabilistic branch, whose probability is not a number
+                stats['nonfinite'] = stats.get('nonfinite', 0) + 1
+                if decision:
+                    problems.append(('non-finite-proposal-accepted', f'step {stats["steps"]}: a proposal with measure {e1!r} was accepted (held {e0!r}, draws {draws})'))
+            elif e1 <= e0:
                 if not decision:
                     problems.append(('equal-or-better-proposal-rejected', f'step {stats["steps"]}: E_new={e1!r} <= E_held={e0!r} was rejected'))
             else:
